@@ -1,3 +1,4 @@
+import AwsVerif.Gen.ThreadsTime
 import AwsVerif.Model.Threads
 import AwsVerif.Proofs.C20.LogInv
 import AwsVerif.Proofs.C20.JoinAll
@@ -432,5 +433,134 @@ theorem c20_thread_name (P : Prog) (s : State) (t : Nat) :
   subst h
   exact ⟨rfl, rfl, rfl, rfl, rfl, rfl, fun j hj => by simp [pushLog, cont, upd_apply, hj], by simp [pushLog, cont],
     by simp [pushLog, cont], by simp [pushLog, cont], by simp [pushLog, cont]⟩
+
+/-- **C20 (failed launch before the wrapper exists)**: an `aws_thread_launch` in which `pthread_attr_init`,
+`pthread_attr_setstacksize` or `pthread_attr_getstacksize` fails returns that error and leaves the managed-thread
+count, the pending-join list, the heap (no wrapper, no name), the lock, the create counter and every thread as they
+were; the only traces are the `launchRet` event and — as /repo does — the MANAGED mark on the handle of a managed
+launch.  The count is touched by a launch only directly in front of `pthread_create` (second part), where
+`c20_managed_count` accounts for the roll-back when the create fails. -/
+theorem c20_failed_launch_attr (P : Prog) (s s3 : State) (t k e : Nat) (rest : List Instr)
+    (h : ((exec P s t (.act (.launchAttr k e)) rest).bind fun s1 =>
+          (exec P s1 t (.markM k) (.logLaunch k e :: rest)).bind fun s2 => exec P s2 t (.logLaunch k e) rest) = some s3) :
+    (s3.count = s.count ∧ s3.pending = s.pending ∧ s3.wLive = s.wLive ∧ s3.cbLive = s.cbLive ∧ s3.lockOwner = s.lockOwner ∧
+      s3.creates = s.creates ∧ s3.nextOrd = s.nextOrd ∧ s3.detachedS = s.detachedS ∧
+      (∀ j, j ≠ t → s3.th j = s.th j) ∧ (s3.th t).code = rest ∧ (s3.th t).status = (s.th t).status ∧
+      (s3.th t).chain = (s.th t).chain ∧ s3.log = Ev.launchRet k t e :: s.log ∧ s3.wlog = s.wlog ∧
+      s3.hstate = if P.managed k then upd s.hstate k .managed else s.hstate) ∧
+    (∀ pin nf nm, expand P s t (.launch k pin nf nm) =
+      [.allocW k nm] ++ (if P.managed k then [.lock, .incCount, .unlock] else []) ++ [.create k pin nf nm]) := by
+  refine ⟨?_, fun _ _ _ => rfl⟩
+  simp only [exec, expand, Option.bind_some, Option.bind, List.cons_append, List.nil_append, Option.some.injEq] at h
+  subst h
+  refine ⟨rfl, rfl, rfl, rfl, rfl, rfl, rfl, rfl, fun j hj => by simp [pushLog, cont, upd_apply, hj], by simp [pushLog, cont],
+    by simp [pushLog, cont], by simp [pushLog, cont], by simp [pushLog, cont], rfl, by simp [pushLog, cont]⟩
+
+/-- **C20 (library start-up after a clean-up)**: re-initialising the thread management leaves the unjoined count alone
+— whatever a clean-up whose join-all ran into its timeout left running stays counted, so the next
+`aws_thread_join_all_managed` (`c20_join_all`) still waits for it — and, with nothing parked in the pending-join list
+(`dropped` records how many wrappers were parked there), changes nothing at all. -/
+theorem c20_reinit_keeps_count (P : Prog) (s s' : State) (t : Nat) (rest : List Instr)
+    (h : exec P s t .libReinit rest = some s') :
+    s'.count = s.count ∧ s'.pending = s.pending ∧ s'.hstate = s.hstate ∧ s'.wLive = s.wLive ∧ s'.lockOwner = s.lockOwner ∧
+    s'.timeoutNs = s.timeoutNs ∧ (∀ j, j ≠ t → s'.th j = s.th j) ∧ s'.log = s.log ∧
+    s'.dropped = s.dropped + s.pending.length ∧ (s.pending = [] → s'.dropped = s.dropped) := by
+  simp only [exec, Option.some.injEq] at h
+  subst h
+  exact ⟨rfl, rfl, rfl, rfl, rfl, rfl, fun j hj => by simp [cont, upd_apply, hj], rfl, rfl, fun hp => by simp [cont, hp]⟩
+
+/-! ### managed-join timeout: the model's arithmetic is the C arithmetic
+
+`AwsVerif.Gen.Threads` holds the expressions of `aws_thread_join_all_managed`, its wait predicate and
+`aws_condition_variable_wait_for`, translated from /repo's source on every run (gen/threads_gen.py). -/
+section timeout
+open AwsVerif.Gen.Threads
+
+/-- the generated C expressions, for `uint64_t` arguments, are the expressions used in `exec` -/
+theorem c20_timeout_bridge (now ts to w cnt : Nat) (hn : now < U64) (hts : ts < U64) :
+    ja_has_timeout to = decide (to > 0) ∧ ja_deadline now to = (now + to) % U64 ∧ ja_timed ts = decide (ts > 0) ∧
+    ja_wait_ns now ts = (if now ≤ ts then ts - now else 0) ∧ ja_done cnt = decide (cnt = 0) ∧
+    ja_timed_out now ts = (decide (ts ≠ 0) && decide (ts ≤ now)) ∧ ja_pred cnt = decide (cnt ≤ 1) ∧
+    cv_abs_deadline w now = (w + now) % U64 := by
+  unfold U64 at *
+  refine ⟨rfl, rfl, rfl, ?_, ?_, ?_, ?_, rfl⟩
+  · unfold ja_wait_ns
+    split
+    · show (ts + 18446744073709551616 - now) % 18446744073709551616 = ts - now
+      omega
+    · rfl
+  · unfold ja_done; by_cases h : cnt = 0 <;> simp [h]
+  · unfold ja_timed_out; by_cases h1 : ts = 0 <;> by_cases h2 : ts ≤ now <;> simp [h1, h2]
+  · unfold ja_pred; by_cases h : cnt ≤ 1 <;> simp [h]
+
+/-- **C20 (join-all timeout)**: every timeout decision of the modelled `aws_thread_join_all_managed` is computed by the
+translated C expressions: arming the deadline (`jaInit`), choosing the timed wait (`jaLoop`), the duration handed to
+the condition variable (`waitForPredInit`), the absolute deadline of `pthread_cond_timedwait` and the wait predicate
+(`waitForPred` / `waitPred`), and the done / timed-out test after the wait (`jaCheck`: the call returns exactly when
+the count is 0 or the deadline has passed, and reports failure exactly when the deadline has passed).  In particular
+a timeout at or above 2^63 ns does not expire before `now + timeout`. -/
+theorem c20_join_all_timeout (P : Prog) (s s' : State) (t : Nat) (rest : List Instr)
+    (hnow : s.now + P.tick < U64) (hN : (s.th t).rNow < U64) (hT : (s.th t).rTs < U64) :
+    (exec P s t .jaInit rest = some s' →
+      (ja_has_timeout (s.th t).rTo = true → s'.now = s.now + P.tick ∧ (s'.th t).rNow = s.now + P.tick ∧
+        (s'.th t).rTs = ja_deadline (s.now + P.tick) (s.th t).rTo) ∧
+      (ja_has_timeout (s.th t).rTo = false → s'.now = s.now ∧ (s'.th t).rTs = 0)) ∧
+    (exec P s t .jaLoop rest = some s' →
+      (s'.th t).code = [.lock, (if ja_timed (s.th t).rTs = true then Instr.waitForPredInit else Instr.waitPred), .jaCheck] ++ rest) ∧
+    (exec P s t .waitForPredInit rest = some s' → (s'.th t).rWait = ja_wait_ns (s.th t).rNow (s.th t).rTs) ∧
+    (exec P s t .waitForPred rest = some s' →
+      if (s.th t).rErr ≠ 0 ∨ ja_pred s.count = true then (s'.th t).code = rest
+      else (s'.th t).deadline = some (cv_abs_deadline (s.th t).rWait (s.now + P.tick)) ∧ s'.now = s.now + P.tick) ∧
+    (exec P s t .waitPred rest = some s' → ((s'.th t).code = rest ↔ ja_pred s.count = true)) ∧
+    (exec P s t .jaCheck rest = some s' →
+      let out := ja_timed_out (s.now + P.tick) (s.th t).rTs
+      s'.now = s.now + P.tick ∧ (s'.th t).rOk = ((s.th t).rOk && !out) ∧
+      (s'.th t).code = [.unlock, .joinAndFree s.pending] ++
+        (if (ja_done s.count || out) = true then [Instr.jaRet ((s.th t).rOk && !out) (s.th t).rSnap] else [Instr.jaLoop]) ++ rest) := by
+  have B := fun now ts to w cnt hn hts => c20_timeout_bridge now ts to w cnt hn hts
+  refine ⟨?_, ?_, ?_, ?_, ?_, ?_⟩
+  · intro h
+    have b := B (s.now + P.tick) 0 (s.th t).rTo 0 0 hnow (by unfold U64; omega)
+    simp only [exec] at h
+    rw [b.1, b.2.1]
+    split at h <;> rename_i hc <;> simp only [Option.some.injEq] at h <;> subst h
+    · simp [cont, hc]
+    · simp [cont, hc]
+  · intro h
+    have b := B 0 (s.th t).rTs 0 0 0 (by unfold U64; omega) hT
+    simp only [exec, Option.some.injEq] at h; subst h
+    rw [b.2.2.1]
+    by_cases hc : (s.th t).rTs > 0 <;> simp [cont, hc]
+  · intro h
+    have b := B (s.th t).rNow (s.th t).rTs 0 0 0 hN hT
+    simp only [exec, Option.some.injEq] at h; subst h
+    rw [b.2.2.2.1]; simp [cont]
+  · intro h
+    have b := B (s.now + P.tick) 0 0 (s.th t).rWait s.count hnow (by unfold U64; omega)
+    simp only [exec] at h
+    rw [b.2.2.2.2.2.2.1, b.2.2.2.2.2.2.2]
+    split at h <;> rename_i hc <;> simp only [Option.some.injEq] at h <;> subst h
+    · have hc' : (s.th t).rErr ≠ 0 ∨ decide (s.count ≤ 1) = true := by simpa using hc
+      rw [if_pos hc']; simp [cont]
+    · have hc' : ¬ ((s.th t).rErr ≠ 0 ∨ decide (s.count ≤ 1) = true) := by simpa using hc
+      rw [if_neg hc']; simp [cont]
+  · intro h
+    have b := B 0 0 0 0 s.count (by unfold U64; omega) (by unfold U64; omega)
+    simp only [exec] at h
+    rw [b.2.2.2.2.2.2.1]
+    split at h <;> rename_i hc <;> simp only [Option.some.injEq] at h <;> subst h
+    · simp [cont, hc]
+    · simp only [cont, upd_same, hc, decide_false, Bool.false_eq_true, iff_false]
+      intro hh
+      have := congrArg List.length hh
+      simp at this
+      omega
+  · intro h
+    have b := B (s.now + P.tick) (s.th t).rTs 0 0 s.count hnow hT
+    simp only [exec, Option.some.injEq] at h; subst h
+    rw [b.2.2.2.2.1, b.2.2.2.2.2.1]
+    simp [cont]
+
+end timeout
 
 end AwsVerif.Props.C20
